@@ -643,6 +643,58 @@ class Builder:
                 _get(m, op[1])(*op[2])
             except Exception:
                 pass
+        # ---- edits that take content away again or change it (write histories, `c04hist`)
+        elif k == "clear_at":
+            _get(m, op[1]).clear_at(*op[2])
+        elif k == "clear_all":
+            _get(m, op[1]).clear_all()
+        elif k == "sclear":
+            sp = _get(m, op[1])
+            if op[2] == "all":
+                sp.clear_all()
+            elif op[2] == "items":
+                sp.clear_items()
+            elif op[2] == "cells":
+                sp.clear_cells(clear_input=True)
+            else:
+                raise ValueError("unknown op %r" % (op,))
+        elif k == "item_del":
+            _get(m, op[1]).clear_at(*op[2])
+        elif k == "iclear":
+            obj = m
+            for nm, args in op[1]:
+                obj = _get(obj, nm)
+                if args is not None:
+                    obj = obj[tuple(args)] if len(args) > 1 else obj[args[0]]
+            c = getattr(obj, op[2])
+            if op[3] is None:
+                c.clear_all()
+            else:
+                c.clear_at(*op[3])
+        elif k == "del":
+            delattr(_get(m, op[1]), op[2])
+        elif k == "formula":
+            _get(m, op[1]).formula = op[2]
+        elif k == "sformula":
+            sp = _get(m, op[1])
+            if op[2] is None:
+                del sp.formula
+            else:
+                sp.formula = op[2]
+        elif k == "rmbases":
+            _get(m, op[1]).remove_bases(*[_get(m, b) for b in op[2]])
+        elif k == "rename":
+            _get(m, op[1]).rename(op[2])
+        elif k == "cached":
+            _get(m, op[1]).is_cached = op[2]
+        elif k == "pandas":
+            import pandas as pd
+            spec = op[4]
+            if spec[0] == "frame":
+                val = pd.DataFrame({c: list(col) for c, col in spec[1]})
+            else:
+                val = pd.Series(list(spec[1]), name=spec[2])
+            _get(m, op[1]).new_pandas(op[2], op[3], val, file_type="csv")
         else:
             raise ValueError("unknown op %r" % (op,))
 
@@ -685,6 +737,13 @@ def valuedesc(v, model):
         return ["Pt", v.a, valuedesc(v.b, model)]
     if type(v).__name__ == "module":
         return ["module", v.__name__]
+    if type(v).__name__ in ("DataFrame", "Series") and type(v).__module__.startswith("pandas"):
+        def plain(x):
+            x = x.item() if hasattr(x, "item") else x
+            return repr(x)
+        cols = [str(c) for c in v.columns] if type(v).__name__ == "DataFrame" else [str(v.name)]
+        return [type(v).__name__, cols, [plain(i) for i in v.index],
+                [[plain(x) for x in (row if isinstance(row, list) else [row])] for row in v.values.tolist()]]
     if callable(v) and hasattr(v, "__name__"):
         return ["func", getattr(v, "__module__", None), v.__name__]
     return ["other", type(v).__name__]
@@ -693,6 +752,13 @@ def valuedesc(v, model):
 def d_ref(owner, name, model, is_model):
     proxy = owner._get_object(name, as_proxy=True)
     d = {"value": valuedesc(proxy.value, model), "mode": proxy.refmode}
+    if d["value"][0] in ("DataFrame", "Series"):
+        # the IO spec OF THIS REFERENCE (file, type).  `model.iospecs` as a whole is not compared: a spec
+        # that no reference holds any more (C18-del-space) is not something C04 speaks about
+        try:
+            d["iospec"] = repr(model.get_spec(proxy.value))
+        except Exception as e:
+            d["iospec"] = "no spec (%s)" % err_kind(e)
     if not is_model:
         d["derived"] = bool(proxy.is_derived())
     return d
@@ -856,6 +922,17 @@ def def_source_after_read(src):
     return "\n".join(funcdef.splitlines()) + "\n"
 
 
+ANY_INT = "<some integer>"       # expected value of a field that the recorded defect fills with an id()
+
+
+def _matches(expected_json, actual_json):
+    if expected_json == actual_json:
+        return True
+    if expected_json == json.dumps(ANY_INT) and actual_json is not None:
+        return re.fullmatch(r"\d+", actual_json) is not None
+    return False
+
+
 def predict(desc):
     """-> (expected flat description after reading, {flat path: finding key}, values_comparable,
     keys of the known findings that make the read itself fail)
@@ -894,7 +971,12 @@ def predict(desc):
                     cd["source"] = after
                     keys[cpath + ("source",)] = "C04-def-text-outside-node"
         for rn, rd in sd["refs"].items():
-            if not rd["derived"] and rd["value"][0] != "obj" and rd["mode"] != "auto":
+            if not rd["derived"] and rd["value"][0] in ("DataFrame", "Series"):
+                # written as ("IOSpec", <value id>, <spec id>); RefAssignParser takes the third element of
+                # every tuple for the reference mode: the spec id, an integer that differs from run to run
+                rd["mode"] = ANY_INT
+                keys[path + ("refs", rn, "mode")] = "C04-iospec-ref-mode"
+            elif not rd["derived"] and rd["value"][0] != "obj" and rd["mode"] != "auto":
                 rd["mode"] = "auto"
                 keys[path + ("refs", rn, "mode")] = "C04-refmode-noninterface"
         for sn, sub in sd["spaces"].items():
@@ -1002,7 +1084,7 @@ def compare(desc0, actual, what, hist, out, stats):
             continue
         ee = fe.get(path)
         key = keys.get(path)
-        if key and ee == aa:
+        if key and _matches(ee, aa):
             if key not in reported:
                 reported.add(key)
                 out.fail("%s: %s differs after reading (%s)" % (what, "/".join(path), key), hist,
@@ -1044,6 +1126,11 @@ def zip_listing(path):
 
 
 def run_program(prog, out, stats, chain=1):
+    if "steps" in prog:
+        # a history of writes to one target path
+        from .. import c04hist
+        c04hist.run_history(prog, out, stats)
+        return
     ops, cfg = prog["ops"], prog.get("cfg", {})
     hist = {"ops": ops, "cfg": cfg}
     close_all()
@@ -1160,7 +1247,7 @@ def run_program(prog, out, stats, chain=1):
         shutil.rmtree(tmp, ignore_errors=True)
 
 
-def read_and_compare(path, label, desc0, vals0, hist, out, stats, name="M"):
+def read_and_compare(path, label, desc0, vals0, hist, out, stats, name="M", expect_name="M"):
     exp, keys, values_ok, unsafe = predict(desc0)
     try:
         with quiet():
@@ -1178,12 +1265,12 @@ def read_and_compare(path, label, desc0, vals0, hist, out, stats, name="M"):
                      detail={"error": k})
         # the failed read must not leave the half-built model behind under the name (C19's subject) - not checked
         for mm in list(mx.get_models().values()):
-            if mm.name == "M":
+            if mm.name == expect_name:
                 mm.close()
         return None
     stats["read"] = stats.get("read", 0) + 1
-    if m2.name != "M":
-        out.fail("the model read from %s is named %r, the written one was named 'M'" % (label, m2.name), hist)
+    if m2.name != expect_name:
+        out.fail("the model read from %s is named %r, expected %r" % (label, m2.name, expect_name), hist)
     if str(m2.path) != path:
         out.fail("model.path is %r after reading from %s" % (str(m2.path), label), hist)
     with quiet():
@@ -1668,6 +1755,11 @@ def run(ctx, out):
         if len(samples) < 3 and tag.startswith("gen:"):
             samples.append([json.dumps(o) for o in prog["ops"][:40]])
 
+    # histories of writes to ONE target path: (edit*, write)+ with every option that decides what is on disk
+    from .. import c04hist
+    ev_hist = c04hist.run_batch(ctx, out, stats)
+    ev += ev_hist
+
     out.coverage.update({
         "evaluations": ev + stats.get("evaluations", 0),
         "distinct_nontrivial": len(nontrivial),
@@ -1676,12 +1768,18 @@ def run(ctx, out):
         "samples": samples,
         "programs": len(seen),
         "codec_lines_compared": ev,
+        "write_histories": stats.get("hist:histories", 0),
+        "writes_in_histories": stats.get("hist:writes", 0),
+        "writes_producing_fewer_files_than_the_target_held": {
+            k.split(":", 2)[2]: v for k, v in sorted(stats.items()) if k.startswith("hist:fewer-files-than-before:")},
+        "save_step_lines_compared": ev_hist,
         "cells_values_compared": stats.get("evaluations", 0),
         "input_distribution": {k: stats[k] for k in sorted(stats)},
     })
     out.assumptions.append(
         "the whole-model round trip is checked on the implementation only (oracle); the Lean theorems cover the "
-        "relative-address codec, the docstring codec and the dispatch tables")
+        "relative-address codec, the docstring codec, the dispatch tables and the save step at the level of file "
+        "names (the target after a write holds exactly the entries of that write, whatever was there before)")
 
 
 def search(ctx, out, extra):
